@@ -142,6 +142,7 @@ class CallSiteSymbolNode(SymbolNode):
             value = eval_expression(self.expression, self.resolver)
         finally:
             self.resolver.current_scope = macro_scope
+        macro_scope.pending.discard(self.symbol_name)
         macro_scope.add_symbol(self.symbol_name, value)
         return current_pc
 
